@@ -7,7 +7,8 @@ ID = "C11"
 LEVEL = "exploration"
 RULE = ("Hypothesis programs of 1-3 linked files with include trees (depth <= 3) in which a small pool of names is deliberately reused: "
         "the same local numbers in several scopes of one file and across files; the same ordinary names private in several files; "
-        "exported through '::', '==', '.extern name' and '.extern all' placed before or after the definition; used before and after "
+        "exported through '::', '==', '.extern name' and '.extern all' placed before or after the definition; constants valued by a "
+        "number, by a label distance of their file or by another visible name plus a number; used before and after "
         "the definition, before and after the exporting file in link order, from data bytes, immediates, words and relative operands, "
         "with and without a leading .link (eager and late evaluation); plus deliberately invisible references and duplicate definitions. "
         "Oracle: the property's resolution rule made executable in the reference assembler (own scope / own file / unique export / "
@@ -54,25 +55,60 @@ def c11_program(draw):
         for n, d in x["defs"].items():
             d["how"] = "private"      # exported through 'all' only (a second export would be a duplicate)
             exported[n] = x["path"]
+    # shadowing plan: two instances hold a private constant p each; one of them exports t derived from *its* p, the other one
+    # combines t with *its own* p in one expression
+    if len(insts) >= 2 and draw(st.integers(0, 2)) == 0:
+        ia, ib = draw(st.permutations(range(len(insts))))[:2]
+        pi_ = draw(st.integers(0, len(NAMES) - 2))
+        pn, tn = NAMES[pi_], NAMES[draw(st.integers(pi_ + 1, len(NAMES) - 1))]
+        A, B = insts[ia], insts[ib]
+        free = all(exported.get(n, B["path"]) == B["path"] for n in (pn, tn)) and not A["extern_all"] and not B["extern_all"]
+        if free:
+            for x in insts:
+                if x is not B:
+                    x["defs"].pop(tn, None)
+            for x, val in ((A, 0o20), (B, 0o40)):
+                x["defs"][pn] = {"kind": "const", "how": "private", "value": val + NAMES.index(pn), "shape": draw(st.sampled_from(["diff", "diff", "num"]))}
+            exported.pop(pn, None)
+            B["defs"][tn] = {"kind": "const", "how": draw(st.sampled_from(["colon", "extern-before", "extern-after"])), "value": 3, "shape": "derived", "from": pn}
+            exported[tn] = B["path"]
+            A["forced_use"] = (tn, pn)
     files = {}
-    for inst in insts:
+    for ii, inst in enumerate(insts):
         visible = list(inst["defs"]) + [n for n, p_ in exported.items() if p_ != inst["path"] and n not in inst["defs"]]
         stmts = []
+        helpers = False
         for name, d in inst["defs"].items():
             exp = d["how"] == "colon"
             if d["kind"] == "label":
                 block = [{"k": "label", "name": name, "export": exp}, {"k": "insn", "mn": "nop", "ops": []}]
             else:
-                block = [{"k": "assign", "name": name, "e": ("num", d["value"]), "export": exp}]
+                # the value: a number, the distance between the two helper labels of this instance (known only once the file is
+                # laid out), or another visible name of lower index plus a number (no cycles: the index strictly decreases)
+                shape = d.get("shape") or draw(st.sampled_from(["num", "num", "diff", "derived", "derived"]))
+                lower = [d["from"]] if d.get("from") else [n for n in visible if NAMES.index(n) < NAMES.index(name)]
+                if shape == "diff":
+                    helpers = True
+                    e = ("bin", "+", ("bin", "-", ("sym", f"hz{ii}"), ("sym", f"ha{ii}")), ("num", d["value"]))
+                elif shape == "derived" and lower:
+                    e = ("bin", "+", ("sym", draw(st.sampled_from(lower))), ("num", d["value"] % 16 + 1))
+                else:
+                    e = ("num", d["value"])
+                block = [{"k": "assign", "name": name, "e": e, "export": exp}]
             if d["how"] in ("extern-before", "extern-after"):
                 # separate blocks: the permutation below decides which comes first and what stands between them
                 stmts.append([{"k": "extern", "names": [name]}])
             stmts.append(block)
+        if inst.get("forced_use"):
+            tn, pn = inst["forced_use"]
+            stmts.append([{"k": "data", "d": "word", "es": [("bin", draw(st.sampled_from(["+", "-"])), ("sym", tn), ("sym", pn)), ("sym", pn), ("sym", tn)]}])
         for _ in range(draw(st.integers(1, 6))):
             k = draw(st.sampled_from(["use", "use", "use", "local", "filler"]))
             if k == "use" and visible:
                 name = draw(st.sampled_from(visible))
                 e = ("sym", name)
+                if len(visible) > 1 and draw(st.integers(0, 3)) == 0:
+                    e = ("bin", draw(st.sampled_from(["+", "-"])), e, ("sym", draw(st.sampled_from([n for n in visible if n != name]))))
                 how = draw(st.sampled_from(["word", "byte", "imm", "rel", "index"]))
                 if how == "word":
                     stmts.append([{"k": "data", "d": "word", "es": [e]}])
@@ -111,6 +147,10 @@ def c11_program(draw):
             pos = {"before": 0, "after": len(flat), "middle": len(flat) // 2}[inst["extern_all"]]
             # never between a local label and its use
             flat.insert(pos, {"k": "extern", "names": "all"})
+        if helpers:
+            flat.insert(0, {"k": "label", "name": f"ha{ii}"})
+            flat.append({"k": "label", "name": f"hz{ii}"})
+            cuts = [c + 1 for c in cuts]
         inst["stmts"] = flat
         inst["cuts"] = cuts
         files[inst["path"]] = flat
@@ -167,7 +207,7 @@ def c11_program(draw):
             fault = None
     if draw(st.booleans()):
         files[mains[0]].insert(0, {"k": "link", "e": ("num", draw(st.sampled_from([0o2000, 0o40000])))})
-    return {"files": files, "blobs": {}, "mains": mains, "charset": "bk", "meta": {"fault": fault}}
+    return {"files": files, "blobs": {}, "mains": mains, "charset": "bk", "meta": {"fault": fault, "shadow": any(x.get("forced_use") for x in insts)}}
 
 
 @st.composite
@@ -259,6 +299,8 @@ def run_shard(spec, ctx):
                   "has-include" if len(prog["files"]) > len(prog["mains"]) else "no-include", "reused-names" if reuse else "no-reuse"]
         if any(s["k"] == "extern" and s["names"] == "all" for st_ in prog["files"].values() for s in st_):
             labels.append("extern-all")
+        if prog["meta"].get("shadow"):
+            labels.append("shadowed-private-behind-export")
         ctx.case(key, reuse >= 1, labels, sample=progcheck.brief_texts(texts, 600) if ctx.evaluations % 70 == 9 else None)
         if fails:
             return (fails[0][0], fails[0][1], progcheck.case_of(prog))
